@@ -166,6 +166,10 @@ func vxFill(fr *frame, a []value) value {
 	i := fr.i
 	target := a[0].(iface)
 	depth := int(i.concInt(a[1]))
+	var sentinel iface
+	if len(a) > 2 {
+		sentinel, _ = a[2].(iface)
+	}
 	p := target.v.(*value)
 	pt := target.t.Underlying().(*types.Pointer).Elem()
 	var gen func(t types.Type, d int) value
@@ -212,11 +216,101 @@ func vxFill(fr *frame, a []value) value {
 				arr[k] = gen(u.Elem(), d)
 			}
 			return arr
+		case *types.Interface:
+			// an interface field holds the sentinel (shared object) or stays nil
+			if sentinel.t != nil && types.Implements(sentinel.t, u) && choice(2) == 1 {
+				return sentinel
+			}
+			return i.zero(t)
+		case *types.Map:
+			if d <= 0 || choice(2) == 0 {
+				return i.zero(t)
+			}
+			m := i.makeMap(u.Key())
+			return m
 		}
 		return i.zero(t)
 	}
 	i.store(pt, p, gen(pt, depth))
 	return nil
+}
+
+// vxFillAll(p any, sentinel any): every field of *p gets non-zero content without forking:
+// scalars symbolic, strings one symbolic byte, pointers to filled values (one level),
+// slices of one filled element, interfaces the sentinel (when it implements them), maps empty non-nil.
+// vxFillOne: the same content for exactly ONE top-level field (symbolic choice), others untouched.
+func (i *interpreter) fillFull(t types.Type, d int, sentinel iface) value {
+	switch u := t.Underlying().(type) {
+	case *types.Basic:
+		switch {
+		case u.Info()&types.IsBoolean != 0:
+			return i.newVar(types.Bool)
+		case u.Info()&types.IsInteger != 0:
+			return i.newVar(u.Kind())
+		case u.Kind() == types.String:
+			return mkStr([]value{i.newVar(types.Uint8)})
+		}
+		return i.zero(t)
+	case *types.Pointer:
+		if d <= 0 {
+			return i.zero(t)
+		}
+		cell := i.fillFull(u.Elem(), d-1, sentinel)
+		return &cell
+	case *types.Struct:
+		s := make(structure, u.NumFields())
+		for k := range s {
+			s[k] = i.fillFull(u.Field(k).Type(), d, sentinel)
+		}
+		return s
+	case *types.Slice:
+		if d <= 0 {
+			return i.zero(t)
+		}
+		return []value{i.fillFull(u.Elem(), d-1, sentinel)}
+	case *types.Array:
+		arr := make(array, u.Len())
+		for k := range arr {
+			arr[k] = i.fillFull(u.Elem(), d, sentinel)
+		}
+		return arr
+	case *types.Interface:
+		if sentinel.t != nil && types.Implements(sentinel.t, u) {
+			return sentinel
+		}
+		return i.zero(t)
+	case *types.Map:
+		return i.makeMap(u.Key())
+	}
+	return i.zero(t)
+}
+
+func vxFillAll(fr *frame, a []value) value {
+	i := fr.i
+	target := a[0].(iface)
+	sentinel, _ := a[1].(iface)
+	p := target.v.(*value)
+	pt := target.t.Underlying().(*types.Pointer).Elem()
+	i.store(pt, p, i.fillFull(pt, 2, sentinel))
+	return nil
+}
+
+func vxFillOne(fr *frame, a []value) value {
+	i := fr.i
+	target := a[0].(iface)
+	sentinel, _ := a[1].(iface)
+	p := target.v.(*value)
+	pt := target.t.Underlying().(*types.Pointer).Elem()
+	st, ok := pt.Underlying().(*types.Struct)
+	if !ok || st.NumFields() == 0 {
+		return -1
+	}
+	v := i.ts.Var(16)
+	i.assume(lower(types.Bool, i.ts.Cmp(OpUlt, v, i.ts.Const(16, uint64(st.NumFields())))))
+	k := int(i.concretize(sym{types.Uint16, v}))
+	fields := (*p).(structure)
+	i.store(st.Field(k).Type(), &fields[k], i.fillFull(st.Field(k).Type(), 2, sentinel))
+	return k
 }
 
 // vxDump(v any) string: canonical rendering of a value under the current model
